@@ -10,5 +10,6 @@ if [ -d native/replayer ]; then
   (cd native/replayer && CARGO_TARGET_DIR=../../build/replayer cargo build --release --offline 2>&1 | tail -2)
   (cd native/replayer && RUSTFLAGS="--cfg walrus_verif" CARGO_TARGET_DIR=../../build/replayer_hooks cargo build --release --offline 2>&1 | tail -2)
 fi
+cc -O2 -shared -fPIC -o build/arenacache.so tools/arenacache/arenacache.c
 python3-vt -c "import z3; print('z3', z3.get_version_string())"
 echo setup ok
